@@ -532,5 +532,3 @@ end
 end
 
 end OxiddModel.Reorder.SwapStore
-#print axioms OxiddModel.Reorder.SwapStore.SwapRes.inv
-#print axioms OxiddModel.Reorder.SwapStore.levelDownS_res
